@@ -25,4 +25,4 @@ print('| seeded change | property | what it breaks (needs something specific to 
 print('|---|---|---|---|---|---|')
 for r in rows: print('| '+' | '.join(r)+' |')
 print()
-print(f'{len(rows)} seeded changes: {caught} caught by the quick tier of the property\'s own check on the final tree, {beforefix} caught when they arrived but since neutralised by a fix: commit (the demo passes with the patch on HEAD), {other} caught by a sibling property\'s check, {notclaimed} not claimed (outside the property as stated), {missed} missed.')
+print(f'{len(rows)} seeded changes: {caught} caught by the quick tier of the property\'s own check (latest run against the seed; meta.json "recheck.repo_head" names the tree), {beforefix} caught when they arrived but since neutralised by a fix: commit (the demo passes with the patch on HEAD), {other} caught by a sibling property\'s check, {notclaimed} not claimed (outside the property as stated), {missed} missed.')
